@@ -32,7 +32,7 @@ META = {
         'enumerates every direction x count x scale 1..12,16,60,255 (truncation table), all sign forms of M, prefixes, nesting and references.'),
     'level_note': (
         'pcbasic applies no per-axis aspect scaling when the angle is 0, so the statement\'s plain arithmetic is used in every mode. '
-        'B and N may stand apart from their move, in either order, with C, S, A0, TA0, move-free X substrings, blanks and semicolons in between: the reference keeps the prefix pending until the next move (a pending prefix in front of a substring that itself moves is not pinned and not generated). Not pinned by the statement and therefore not generated: turning (A/TA other than 0), P, negative or blank-split counts, colours outside the attribute '
+        'Between DRAW statements every other statement that can move the graphics cursor is interleaved (PSET, PRESET, LINE forms, CIRCLE, PAINT, GET, PUT, VIEW, WINDOW, CLS, SCREEN): a twin that reached the same point by PSET instead of DRAW must then report the same POINT(0)/POINT(1) and show the same page, and the next DRAW continues from there. B and N may stand apart from their move, in either order, with C, S, A0, TA0, move-free X substrings, blanks and semicolons in between: the reference keeps the prefix pending until the next move (a pending prefix in front of a substring that itself moves is not pinned and not generated). Not pinned by the statement and therefore not generated: turning (A/TA other than 0), P, negative or blank-split counts, colours outside the attribute '
         'range, the colour used before any C (every string starts with an explicit C), whether S persists over CLS (strings without S '
         'are only run in a fresh session before any S was given; all others begin with an explicit S). Per-segment equality with LINE is '
         'observed as equality of the final pages after the same segment sequence (single-segment strings give it exactly). '
@@ -41,7 +41,7 @@ META = {
              'non-trivial = at least one move command (every generated string has one)'),
     'design_ref': 'DESIGN.md section 4 C33',
     'assumptions': ['POINT(0)/POINT(1) after PSET report the PSET position (used as the start of the pen)'],
-    'require_counters': {'any': ['strings', 'moves', 'moves_without_count', 'scaled_fractional_moves', 'relative_m', 'absolute_m',
+    'require_counters': {'any': ['interleaved_statements', 'interleaved_circle', 'interleaved_paint', 'interleaved_put', 'interleaved_view', 'interleaved_cls', 'interleaved_screen_trip', 'strings', 'moves', 'moves_without_count', 'scaled_fractional_moves', 'relative_m', 'absolute_m',
                                  'prefix_b', 'prefix_n', 'detached_prefix_b', 'detached_prefix_n', 'prefix_kept_over_commands', 'substrings', 'varptr_substrings', 'variable_refs', 'no_scale_strings',
                                  'segments_compared', 'colour_changes', 'pen_offscreen_end']},
     'timeout': {'quick': 900, 'thorough': 3600},
@@ -372,6 +372,100 @@ class Pair(object):
         self.s_given = False
         self.dirty = None
         self.n = 0
+        for g in (self.main, self.twin):
+            g.direct(b'DIM A%(600)')
+
+    INTERLEAVED = ['PSET', 'PRESET', 'LINE', 'LINE-B', 'LINE-BF', 'LINE-TO', 'PSET-STEP', 'CIRCLE', 'CIRCLE-STEP', 'PAINT', 'GET', 'PUT',
+                   'VIEW', 'VIEW-SCREEN', 'WINDOW', 'CLS', 'SCREEN', 'SCREEN-TRIP']
+
+    def pen(self, g):
+        try:
+            return (g.box.ev(b'POINT(0)'), g.box.ev(b'POINT(1)'))
+        except harness.Internal as e:
+            self.res.violation(e.key, 'POINT(0)/POINT(1): %s' % e, {'mode': self.m['label']})
+            raise
+
+    def interleave(self, rng, kind):
+        """
+        Another statement between two DRAW statements.  MAIN reached its last point by DRAW, the TWIN gets the
+        same point by PSET (no DRAW history); the statement is then executed on both.  Where the graphics
+        cursor is afterwards, and what the statement drew (forms that start at the last point), must not depend
+        on how the last point was reached:  POINT(0)/POINT(1) and the pages of both sessions must agree.
+        -> True if the following DRAW may continue from the pen (nothing was printed over the pictures)
+        """
+        res, g, tw = self.res, self.main, self.twin
+        label = self.m['label']
+        p = self.pen(g)
+        px, py = int(p[0]), int(p[1])
+        if 0 <= px < g.w and 0 <= py < g.h:
+            tw.direct(b'PSET(%d,%d),%d' % (px, py, tw.active()[py * g.w + px]))
+        else:
+            tw.direct(b'PSET(%d,%d),0' % (px, py))
+        c = rng.randrange(1, g.nattr)
+        x, y = rng.randint(20, g.w - 40), rng.randint(20, g.h - 30)
+        stmt = {
+            'PSET': b'PSET(%d,%d),%d' % (x, y, c),
+            'PRESET': b'PRESET(%d,%d)' % (x, y),
+            'LINE': b'LINE(%d,%d)-(%d,%d),%d' % (x, y, x + rng.randint(-15, 15), y + rng.randint(-15, 15), c),
+            'LINE-B': b'LINE(%d,%d)-(%d,%d),%d,B' % (x, y, x + 9, y + 6, c),
+            'LINE-BF': b'LINE(%d,%d)-(%d,%d),%d,BF' % (x + 9, y + 6, x, y, c),
+            'LINE-TO': b'LINE-(%d,%d),%d' % (x, y, c),
+            'PSET-STEP': b'PSET STEP(%d,%d),%d' % (rng.randint(-9, 9), rng.randint(-9, 9), c),
+            'CIRCLE': b'CIRCLE(%d,%d),%d,%d' % (x, y, rng.randint(0, 12), c),
+            'CIRCLE-STEP': b'CIRCLE STEP(%d,%d),%d,%d' % (rng.randint(-9, 9), rng.randint(-9, 9), rng.randint(1, 9), c),
+            'PAINT': b'LINE(%d,%d)-(%d,%d),%d,B:PAINT(%d,%d),%d,%d' % (x, y, x + 12, y + 8, c, x + 3, y + 3, c, c),
+            'GET': b'GET(%d,%d)-(%d,%d),A%%' % (x, y, x + 9, y + 5),
+            'PUT': b'GET(%d,%d)-(%d,%d),A%%:PUT(%d,%d),A%%,XOR' % (x, y, x + 9, y + 5, x - 7, y + 3),
+            'VIEW': b'VIEW(%d,%d)-(%d,%d)' % (g.w // 8, g.h // 8, g.w - g.w // 8, g.h - g.h // 8),
+            'VIEW-SCREEN': b'VIEW SCREEN(%d,%d)-(%d,%d)' % (g.w // 8, g.h // 8, g.w - g.w // 8, g.h - g.h // 8),
+            'WINDOW': b'WINDOW(-1,-1)-(1,1)',
+            'CLS': b'CLS',
+            'SCREEN': b'SCREEN %d' % self.m['screen'],
+            'SCREEN-TRIP': b'SCREEN 0:SCREEN %d' % self.m['screen'],
+        }[kind]
+        case = {'mode': label, 'pen_after_draw': [px, py], 'stmt': stmt}
+        try:
+            c1 = g.direct(stmt)
+            c2 = tw.direct(stmt)
+        except harness.Internal as e:
+            res.violation(e.key, '%s: %s after DRAW: %s' % (label, stmt.decode(), e), case)
+            raise
+        res.case((label, 'interleave', (px, py), stmt))
+        res.count('interleaved_statements')
+        res.count('interleaved_' + kind.lower().replace('-', '_'))
+        ok = not c1 and not c2
+        if c1 != c2:
+            res.violation('draw:statement-after-DRAW-error-differs:' + kind,
+                          '%s: %s gave error %d after a DRAW history and %d after PSET at the same point %r' % (label, stmt.decode(), c1, c2, (px, py)), case)
+        if ok:
+            pm, pt = self.pen(g), self.pen(tw)
+            if pm != pt:
+                res.violation('draw:last-point-after:' + kind,
+                              '%s: DRAW left the pen at %r; after %s POINT(0),POINT(1) = %r, but %r when the same point was reached by PSET' % (
+                                  label, (px, py), stmt.decode(), pm, pt), case)
+            a, b = g.active(), tw.active()
+            if a != b:
+                d = gfx.diff_points(a, b, g.w, g.h, limit=3)
+                res.violation('draw:statement-after-DRAW-draws-differently:' + kind,
+                              '%s: pen %r, %s: page differs from the session that reached the point by PSET, at %r' % (label, (px, py), stmt.decode(), d), case)
+                ok = False
+        if kind == 'WINDOW':
+            # DRAW under a WINDOW is not pinned: back to physical coordinates, the cursor must still agree
+            g.direct(b'WINDOW')
+            tw.direct(b'WINDOW')
+            if ok and self.pen(g) != self.pen(tw):
+                res.violation('draw:last-point-after:WINDOW-reset', '%s: after WINDOW(-1,-1)-(1,1):WINDOW the cursors differ: %r / %r' % (
+                    label, self.pen(g), self.pen(tw)), case)
+        if kind in ('CLS', 'SCREEN-TRIP'):
+            self.dirty = None
+        return ok, kind
+
+    def after_interleave(self, kind):
+        """Undo VIEW and wipe both pages."""
+        if kind in ('VIEW', 'VIEW-SCREEN'):
+            self.main.direct(b'VIEW')
+            self.twin.direct(b'VIEW')
+        self.clear(full=True)
 
     def close(self):
         self.main.close()
@@ -388,7 +482,7 @@ class Pair(object):
         self.twin.direct(stmt)
         self.dirty = None
 
-    def case(self, cmds, rng, start=None, plain=False):
+    def case(self, cmds, rng, start=None, plain=False, keep=False):
         """Run one DRAW case. cmds must begin with what makes colour (and scale, once any S was given) explicit."""
         res, g, tw = self.res, self.main, self.twin
         label = self.m['label']
@@ -470,7 +564,11 @@ class Pair(object):
             res.violation('draw:segment-differs-from-LINE',
                           '%s: from %r, %s: page differs from the twin that drew %d segment(s) with LINE, first at %r (main=%d twin=%d)' % (
                               label, p0, stmt.decode('latin-1'), len(segs), d[0], a[d[0][1] * g.w + d[0][0]], b[d[0][1] * g.w + d[0][0]]), case)
-        # clean up what was drawn
+        # clean up what was drawn (keep: another statement follows directly on this DRAW; wiping the page would
+        # itself be a statement that moves the graphics cursor)
+        if keep and not bad:
+            self.dirty = None
+            return
         if bad:
             self.clear(full=True)
         else:
@@ -517,7 +615,25 @@ def random_cases(pair, rng, n, no_scale):
         body = gen.commands(k)
         if not any(c[0] in ('mv', 'mr', 'ma', 'X') for c in body):
             body += gen.move()
-        pair.case(head + body, rng, start)
+        inter = rng.random() < 0.15
+        pair.case(head + body, rng, start, keep=inter)
+        if inter:
+            interleaved_pair(pair, rng, rng.choice(pair.INTERLEAVED), no_scale)
+
+
+def interleaved_pair(pair, rng, kind, no_scale=False, plain=False):
+    """<another statement> then a DRAW that continues from wherever that statement left the graphics cursor."""
+    g = pair.main
+    ok, kind = pair.interleave(rng, kind)
+    if ok:
+        p = pair.pen(g)
+        gen = Gen(rng, g, (int(p[0]), int(p[1])), allow_scale=False, scale=4 if no_scale else 5)
+        body = gen.commands(rng.randint(1, 4))
+        if not any(c[0] in ('mv', 'mr', 'ma') for c in body):
+            body += gen.move()
+        head = [['C', 1 + rng.randrange(g.nattr - 1)]] + ([] if no_scale else [['S', 5]])
+        pair.case(head + body, rng, None, plain=plain)
+    pair.after_interleave(kind)
 
 
 def directed(pair):
@@ -552,6 +668,12 @@ def directed(pair):
     sub1 = [['mv', 'R', 9, False, False], ['X', sub2], ['mv', 'U', None, False, True]]
     pair.case([['S', 4], ['C', c], ['mv', 'L', 4, False, False], ['X', sub1], ['mv', 'H', 3, False, False], ['X', sub2], ['mr', -5, 5, False, False]],
               rng, (cx, cy), plain=True)
+    # every other statement that can move the graphics cursor, between two DRAW statements
+    for i, kind in enumerate(pair.INTERLEAVED):
+        for rep in range(2):
+            pair.case([['S', 4], ['C', c], ['mv', 'R', 9 + i, False, False], ['mv', 'D', 5 + rep, False, False], ['mr', -3, 7, True, False]],
+                      rng, (cx - 20 + i, cy - 15 + 3 * rep), plain=True, keep=True)
+            interleaved_pair(pair, rng, kind, plain=True)
     # pen carried over from one DRAW statement to the next (no PSET in between)
     pair.case([['S', 8], ['C', c], ['mv', 'E', 7, False, False]], rng, (cx, cy), plain=True)
     pair.case([['S', 8], ['C', c], ['mv', 'F', 7, False, False], ['mv', 'L', None, True, False]], rng, None, plain=True)
@@ -616,6 +738,9 @@ def run_shard(spec, res):
         except gfx.ModeMismatch as e:
             res.inconclusive('mode table: %s' % e)
             break
+        except gfx.Corrupt as e:
+            res.violation('frame:page-buffer-corrupted:%s' % e.what, '%s: the screen can no longer be observed: %s' % (spec['mode'], e), {'mode': spec['mode']})
+            todo -= 50
         except harness.Internal:
             res.count('internal_errors')
             todo -= 50
